@@ -1,9 +1,9 @@
 SPECIFICATION Spec
 CONSTANTS
- NK = 3
+ NK = 4
  MaxLayer = 2
  MaxH = 2
- Restore = TRUE
- AsIs = TRUE
-INVARIANTS SeekOK
+ Restore = FALSE
+ AsIs = FALSE
+INVARIANTS RetrySafe
 CHECK_DEADLOCK FALSE
